@@ -5,7 +5,7 @@ from datetime import timedelta
 import random
 
 from harness.legs import cfg_text, gen_traces, leg_m, leg_mutant, leg_r, leg_t_gen
-from harness.vloop import VClock, VLoop
+from harness.vloop import Falsy, VClock, VLoop
 
 SPEC = "Throttle"
 MANIFEST = dict(
@@ -46,7 +46,7 @@ class ThrottleDriver:
         self.starts = []
         self.res = ["none"] * self.n
         self.gates, self.tasks = {}, {}
-        self.vals = {c: object() for c in range(1, self.n + 1)}
+        self.vals = {c: Falsy(c) for c in range(1, self.n + 1)}
         self.errs = {c: Err(f"call {c}") for c in range(1, self.n + 1)}
         drv = self
 
